@@ -1,19 +1,19 @@
 from props.common import run_all as run  # noqa: F401
 
-META = {
-    "claimed": True,
-    "title": "AWS request signatures verify under an independent Signature Version 4",
-    "level_text": ("proof: the model of aws_sign.c is an interpreter of the asprintf format strings, argument lists, strftime formats and HMAC chain "
-                   "REGENERATED from the C text on every run; four theorems (C19_s3_headers, C19_svc_headers, C19_dynamodb_headers, C19_s3_querystr) prove, "
-                   "for every key id / region / bucket / service / op over the unreserved alphabet, every path over unreserved+'/', every secret, body, expiry and "
-                   "timestamp, that the model returns hex(SHA-256(body)) and exactly the SigV4 Authorization value / presigned query of the request documented in "
-                   "aws_sign.h at the returned timestamp, scope date = first 8 chars of that timestamp; generic in the hash functions (any byte-valued sha256/hmac), "
-                   "so an edit of any layout breaks the proof. The order of the steps inside each function and the libc pieces are hand-modelled and bound by the "
-                   "correspondence run (implementation vs extracted model vs extracted spec evaluated at the returned timestamp, time() interposed)."),
-    "level_note": ("Trusted: Coq kernel + vm_compute; the translator tools/extract/x_aws.py; Gallina models of asprintf(%s %d %%), gmtime_r, strftime(%Y %m %d %H %M %S) "
-                   "for years 1970..9999; the transcription of the published SigV4 algorithm in Aws/SigV4Spec.v; SHA-256/HMAC correctness is C01's subject "
-                   "(the C19 theorems hold for any hash functions). Print Assumptions: closed under the global context."),
-    "trusted_base": ["Gallina models of asprintf (%s %d %%), gmtime_r and strftime (%Y %m %d %H %M %S; years 1970..9999), sampled against libc by the correspondence run",
-                     "transcription of the published SigV4 algorithm (Aws/SigV4Spec.v) and of the requests documented in aws_sign.h (Aws/AwsDoc.v)"],
-    "assumptions": ["identifiers over the URI-unreserved alphabet, paths over unreserved + '/', as the property's quantifier states (the interface does no percent-encoding)"],
-}
+META = {'claimed': True,
+ 'title': 'AWS request signatures verify under an independent Signature Version 4',
+ 'level_text': 'proof: the model of aws_sign.c is an interpreter of the asprintf format strings, argument lists, strftime formats and HMAC chain REGENERATED from the C text on every run; four '
+               'theorems (C19_s3_headers, C19_svc_headers, C19_dynamodb_headers, C19_s3_querystr) prove, for every key id / region / bucket / service / op over the unreserved alphabet, every path '
+               "over unreserved+'/', every secret, body and expiry, and every time() value t with 0 <= t < 253402300800 (1970-01-01 .. 9999-12-31 UTC), that the model returns hex(SHA-256(body)) and "
+               'exactly the SigV4 Authorization value / presigned query of the request documented in aws_sign.h at the returned timestamp, scope date = first 8 chars of that timestamp; S3 paths must '
+               "begin with '/' (the documented request line; the spec canonicalises an empty path to '/'); for 253402300800 <= t <= gmtime_r's maximum all four functions fail "
+               '(C19_far_future_rejected: date[9] too small); no theorem for t < 0 (the model follows glibc there and the run samples it); generic in the hash functions (any byte-valued '
+               'sha256/hmac), so an edit of any layout breaks the proof. The order of the steps inside each function and the libc pieces are hand-modelled and bound by the correspondence run '
+               '(implementation vs extracted model vs extracted spec evaluated at the returned timestamp, time() interposed).',
+ 'level_note': 'Trusted: Coq kernel + vm_compute; the translator tools/extract/x_aws.py; Gallina models of asprintf(%s %d %%), gmtime_r and glibc strftime (%Y unpadded; returns 0 when the text does '
+               "not fit), sampled against libc incl. years < 1000 and >= 10000; the transcription of the published SigV4 algorithm in Aws/SigV4Spec.v; SHA-256/HMAC correctness is C01's subject (the "
+               'C19 theorems hold for any hash functions). Print Assumptions: closed under the global context.',
+ 'trusted_base': ['Gallina models of asprintf (%s %d %%), gmtime_r and strftime (%Y %m %d %H %M %S; years 1970..9999), sampled against libc by the correspondence run',
+                  'transcription of the published SigV4 algorithm (Aws/SigV4Spec.v) and of the requests documented in aws_sign.h (Aws/AwsDoc.v)'],
+ 'assumptions': ["identifiers over the URI-unreserved alphabet, paths over unreserved + '/', as the property's quantifier states (the interface does no percent-encoding)",
+                 "S3 paths begin with '/' (documented request line)"]}
